@@ -8,8 +8,8 @@ TECH = "contract-based deductive verification (Verus) of mechanically extracted 
 
 CLAIMED = {
  "C14": {
-  "text": "Function contracts on the real text of the ten difficulty functions of send_last_state_proof.rs (re-extracted from /repo on every run), discharged by Verus for all inputs and all loop iterations: each function equals a closed-form spec over naturals (tau bound check, tau exponent, epoch split, estimated min/max limit, verify_tau, verify_total_difficulty incl. exactness within one epoch / across one switch) and never panics or overflows, except at the listed known-finding sites (U256 overflow for absurd difficulties). Layer 2 (completeness, proved lemmas without assumptions): every epoch history obeying tau is accepted by the trend check, has a tau exponent, and - for unchanged trends and for n - k odd - its accumulated difficulty lies within both limits, hence is accepted by what verify_total_difficulty decides; for n - k even this is false for the code (known finding S16, replayed on the real code).",
-  "note": "Trusted: Verus+Z3, the extractor/weaver, shims for numext U256 / EpochNumberWithFraction / compact_to_difficulty. The honest-segment model of the completeness theorems is written from the property statement (not derived from ckb-chain-spec); domain without U256 saturation. Known findings D2, S16 listed in known_findings.txt.",
+  "text": "Function contracts on the real text of the ten difficulty functions of send_last_state_proof.rs (re-extracted from /repo on every run), discharged by Verus for all inputs and all loop iterations: each function equals a closed-form spec over naturals (tau bound check, tau exponent, epoch split, estimated min/max limit, verify_tau, verify_total_difficulty incl. exactness within one epoch / across one switch) and never panics or overflows, except at the listed known-finding sites (U256 overflow for absurd difficulties). Layer 2 (completeness, proved lemmas without assumptions): every epoch history obeying tau is accepted by the trend check, has a tau exponent, and its accumulated difficulty lies within both limits for every parity of n - k, hence is accepted by what verify_total_difficulty decides (theorem_total_complete_all; before fix S16, d53d79e, this was false for n - k even: found by this proof, replayed on the real code).",
+  "note": "Trusted: Verus+Z3, the extractor/weaver, shims for numext U256 / EpochNumberWithFraction / compact_to_difficulty. The honest-segment model of the completeness theorems is written from the property statement (not derived from ckb-chain-spec); domain without U256 saturation. Known finding D2 listed in known_findings.txt; S16 repaired (fixed: line).",
   "ref": "DESIGN.md 5-C14"},
  "C11": {
   "text": "The per-peer state machine of peers.rs (PeerState::{request_last_state, receive_last_state, request_last_state_proof, receive_last_state_proof, take, getters, require_new_*, when_sent_request}), the timeout predicate of get_peers_which_have_timeout (closure body lifted mechanically) and Status::{should_ban, should_warn, is_ok} are proved equal to a total transition table / timeout disjunction / ban range written from the diagram and the property statement, for every state and payload; payload frames (a last-state update never drops the proof or the outstanding request) are part of the postconditions.",
